@@ -93,6 +93,16 @@ CLAIMED = {
             'well-conditioned regressions; rankings may differ inside exact ties.',
             'deterministic simulation: seeded interleavings of calls by two users on one shared Fitter with failing calls as faults, fresh-fitter differential oracle; paired-world relations',
             'DESIGN.md section 5 (C11)'),
+    'C17': ('exploration',
+            'Cross-stage simulated runs: cube packages (single-aperture distance-independent, multi-aperture distance-dependent, f4/f8, either '
+            'spectral storage order) fitted at tabulated wavelengths with stored predictions (memmap on/off), then histories of plot() calls in '
+            'all four display modes with N=1..5, memmap knob, via the path or the result object, optionally after another consumer ran on the same '
+            'object. From the returned LineCollection: number of curves = fits x apertures shown, best fit drawn last, and at every fitted '
+            'wavelength the curve for that filter\'s aperture passes through 10^model_fluxes mJy x nu within 1e-3.',
+            'No rendering (output_dir=None); 1e-3 covers the KPC constant in plot.py (2.1e-4); aperture radii kept >= 2 % inside the table; >= 2 '
+            'distinct apertures.',
+            'deterministic simulation: seeded fit->plot histories over channels, prior consumers and memmap/storage knobs; stored-prediction cross-stage oracle',
+            'DESIGN.md section 5 (C17)'),
 }
 
 NOT_APPLICABLE = {
